@@ -28,7 +28,7 @@ CLAIMED = {
          "as C03; crash restarts at quiescent points only", "§4 C07"),
  "C08": ("invariant monitor evaluated at every event of the recorded I/O trace of every explored history (the C01/C02 history space)",
          "For every history of the C01/C02 space (all pool sizes, checkpoint placements, eviction patterns they contain) the complete DiskManager call trace is checked event by event: a heap page write never carries a page LSN beyond the last complete record on stable storage; every row slot and next-page link of a written heap page that differs from the page's previous durable image is spoken about by a log record that has reached stable storage since (content rule: catches changes that do not move the page LSN); a writing transaction's commit returns only after its COMMIT record is durable, the log file always parses (with the repository's own record parser) into complete records with per-transaction increasing LSNs and intact prevLSN chains.",
-         "heap pages = table heap chains of user tables; sequential histories here, concurrent executions are covered by the Engine C drivers", "§4 C08"),
+         "heap pages = table heap chains of user tables; the per-transaction order clause is checked within one life of the engine (a restart reuses transaction ids), the page-LSN and content rules also over the I/O trace of every recovery started from a crash point that ends in a whole log or page write; concurrent committing writers under the scheduler (Engine C)", "§4 C08"),
  "C09": ("explicit-state search over DDL/DML/clean-restart histories on the real database, differential battery before/after each restart",
          "Every history up to the depth bound of CREATE TABLE, inserts (incl. multi-page growth), in-place/key-changing/relocating updates, deletes and Shutdown()+reopen cycles is run on the real engine (pool 32 KB and 128 KB, 3 seeds); a battery of full scan, every point key and every range through index path and scan path must give identical answers immediately before shutdown and after reopen; later statements are compared with a row model.",
          "auto-commit statements, skip-list indexes (SQL DDL); failures that reproduce without the restart are not attributed to C09", "§4 C09"),
